@@ -400,3 +400,6 @@ def replay(cs, env):
     for c, cr in env.execute([cs]):
         judge(res, c, cr)
     return res
+
+
+RULE = RULE + ' Legal aliases the generator never produces (leading zeros, indices >= 2^32) shared by both operands; refused equation tables directly followed by an Equate of another table; term texts refer only to earlier constituents (self-referential terms are outside the property).'
